@@ -33,7 +33,7 @@ class C12(tk.TableProp):
     partial = ("pandas `query` is modelled by a predicate AST (and/or of column-op-constant over int, float, str and bool "
                "columns) that the harness renders as the query string; that the returned frame is a copy lives in the runtime "
                "and is explored (frames are overwritten in place after the read and re-read after later writes)")
-    n_quick = 240
+    n_quick = 200
     n_thorough = 4000
     rule = ("case = a table of 2-5 mixed-dtype columns (names containing `tracked` as a substring included) x 0-12 rows, "
             "3-7 views (with/without tracked, full, queries that do / do not mention tracked, a not-yet-existing column), "
@@ -115,25 +115,22 @@ class C12(tk.TableProp):
                 q = tk.random_pred(rng, qcols)
                 if rng.random() < 0.5 and "tracked" not in tk.pred_cols(q):
                     q = ["and", q, ["a", "tracked", rng.choice(["eq", "ne"]), rng.choice(["b0", "b1"])]]
-            views.append({"id": g.next_id, "cols": vc, "q": q})
+            if vc and rng.random() < 0.05:
+                vc = vc + [vc[0]]                                 # the same column named twice (legal: returned twice)
+            views.append({"id": g.next_id, "cols": vc, "q": q, "as_str": len(vc) == 1 and rng.random() < 0.3, "noq": rng.random() < 0.5})
             g.views[g.next_id] = vc
             g.next_id += 1
         # reads at different moments of the initial creation: before pop has written anything (only `tracked` exists),
         # after pop's columns exist but before the later component's, and inside the later component's initializer
         whole = [v["id"] for v in views if not v["cols"]]
 
-        def early_reads(p):
-            out = []
-            while rng.random() < p:
-                vid = rng.choice(whole) if whole and rng.random() < 0.7 else rng.choice(list(g.views))
-                out.append(self._read(rng, g, vid, cols))
-                p *= 0.5
-            return out
+        def early_reads(p, initial=False):
+            return g.inside(p * 1.4, cols, initial)
 
         labels0 = list(range(n0))
-        init = {"pop": early_reads(0.5) + g.fill(labels0, view=1, cols=names) + early_reads(0.5)}
+        init = {"pop": early_reads(0.5, True) + g.fill(labels0, view=1, cols=names) + early_reads(0.5, True)}
         if late:
-            init["late"] = early_reads(0.2) + g.fill(labels0, view=100, cols=["late_c"]) + early_reads(0.2)
+            init["late"] = early_reads(0.2, True) + g.fill(labels0, view=100, cols=["late_c"]) + early_reads(0.2, True)
 
         def fills(labels):
             f = {"pop": early_reads(0.15) + g.fill(labels, view=1, cols=names)}
@@ -172,7 +169,10 @@ class C12(tk.TableProp):
                 if sc and all(c in pc for c in sc):
                     g.views[g.next_id] = sc
                 g.next_id += 1
-            elif r < 0.96:
+            elif r < 0.93:
+                ops.append({"a": "pop", "untracked": rng.random() < 0.5, "via": rng.choice(["sim", "manager", "default"]),
+                            "mutate": rng.random() < 0.5})
+            elif r < 0.97:
                 k = rng.choice([0, 1, 2])
                 ops.append({"a": "create", "k": k, "comp": "pop", "fills": fills(list(range(g.n, g.n + k)))})
                 g.n += k
@@ -190,30 +190,17 @@ class C12(tk.TableProp):
             steps = 1
             for ph in rng.sample(tk.PHASES, rng.randint(1, 3)):
                 g_n, g.n = g.n, n0
-                hooks[f"0:{ph}:pop"] = [self._read(rng, g, rng.choice([v["id"] for v in views] + whole * 2), cols)
-                                        for _ in range(rng.randint(1, 3))]
+                acts = [self._read(rng, g, rng.choice([v["id"] for v in views] + whole * 2), cols) for _ in range(rng.randint(1, 3))]
+                for a in acts:
+                    if rng.random() < 0.4:
+                        a["idx"] = "event"                        # the index object the framework hands to the listener
+                hooks[f"0:{ph}:{rng.choice(['pop', 'late']) if late else 'pop'}"] = acts
                 g.n = g_n
         return {"comps": comps, "pop": n0, "init": init, "steps": steps, "hooks": hooks, "ops": ops, "seeds": [1, 2]}
 
     @staticmethod
     def _read(rng, g, vid, cols):
-        n = g.n
-        r = rng.random()
-        if n == 0 or r < 0.08:
-            idx = []
-        elif r < 0.30:
-            idx = list(range(n))
-        elif r < 0.55:
-            idx = rng.sample(range(n), n)
-        elif r < 0.85:
-            idx = rng.sample(range(n), rng.randint(1, n))
-        elif r < 0.93:
-            idx = [rng.randrange(n) for _ in range(rng.randint(2, 4))]                  # repeated labels
-        else:
-            idx = rng.sample(range(n), rng.randint(0, n)) + [n + rng.choice([0, 3])]    # a label that does not exist
-            rng.shuffle(idx)
-        q = ["T"] if rng.random() < 0.55 else tk.random_pred(rng, cols + ([("tracked", "bool")] if rng.random() < 0.3 else []))
-        return {"a": "get", "view": vid, "idx": idx, "q": q, "mutate": rng.random() < 0.5}
+        return g.read(vid, cols)
 
     # ------------------------------------------------------------------ oracle (the property itself)
     def oracle(self, case, obs):
@@ -297,8 +284,7 @@ class C12(tk.TableProp):
                     if tk.norm_tok(v) != tk.norm_tok(tk.cell(t, r, name)):
                         fail("get-wrong-values", f"{desc}: cell ({r},{name}) is {v}, the table has {tk.cell(t, r, name)}")
                         break
-        if obs.get("held_changed"):
-            fail("held-frame-changed", f"frames returned by reads at log positions {obs['held_changed']} changed after later writes")
+        fails += tk.held_failures(obs) + tk.population_failures(obs) + tk.history_failures(case, obs)
         return fails
 
     # ------------------------------------------------------------------ reporting
@@ -349,7 +335,7 @@ class C12(tk.TableProp):
             elif e["t"] == "create":
                 t.append("create")
         t += ["model-err:" + k for k in obs.get("model_errs", [])]
-        return t
+        return t + tk.form_tags(case, obs)
 
 
 PROP = C12()
